@@ -256,10 +256,11 @@ pub fn check(c: &Case) -> Verdict {
                         let (recs2, _, _) = run_plan(c, plan.clone(), false);
                         if let Some(k2) = recs2.iter().position(|r| matches!(r.ev, Ev::Io(_))) {
                             let post = &recs2[k2 + 1..];
-                            let finished = post.iter().all(|r| matches!(r.ev, Ev::Eof));
+                            // (a reader that keeps answering with an I/O error is finished too)
+                            let finished = post.iter().all(|r| matches!(r.ev, Ev::Eof | Ev::Io(_)));
                             let resumed = post.iter().zip(base[k2.min(base.len())..].iter()).all(|(a, b)| a.ev == b.ev && a.pos == b.pos) && !post.is_empty();
                             if !finished && !resumed {
-                                v.fail = Some(format!("after the I/O error (injected {:?} at refill {:?}) further calls returned {} - neither Eof nor the continuation of the fault-free run: events fabricated from partial data | cfg={} cuts={:?} | fault-free: {}", kind_of(kind), faults, show_recs(post), cfg_show(c.cfg), c.cuts, show_recs(&base)));
+                                v.fail = Some(format!("after the I/O error (injected {:?} at refill {:?}) further calls returned {} - neither Eof / I/O errors only nor the continuation of the fault-free run: events fabricated from partial data | cfg={} cuts={:?} | fault-free: {}", kind_of(kind), faults, show_recs(post), cfg_show(c.cfg), c.cuts, show_recs(&base)));
                             }
                             v.classes.push("calls-after-the-io-error");
                         }
